@@ -187,7 +187,8 @@ def _boundaries(packets):
         yield pos
 
 
-def run_one(kind, stream, cuts, idle_steps, settings, cb, split_at=None, resume_at=None, bystander=False, cb_style="method", register_at=None, clock_jump=False):
+def run_one(kind, stream, cuts, idle_steps, settings, cb, split_at=None, resume_at=None, bystander=False, cb_style="method", register_at=None, clock_jump=False,
+            loss=None):
     """split_at: byte offset (a packet boundary) at which the gateway drops the link; the rest of the stream arrives
     on the connection the client opens next."""
     async def scenario(sim):
@@ -215,8 +216,10 @@ def run_one(kind, stream, cuts, idle_steps, settings, cb, split_at=None, resume_
                 await asyncio.sleep(0.5)          # what was sent so far is read before the link goes
                 if clock_jump:
                     sim.clock_box["offset"] = 660.0      # eleven minutes pass before the link drops: the client is no longer young
-                if kind == "waveshare":
-                    conn.reset(simgw.serial_loss_exception())
+                # how the link goes: an orderly end of stream, or an error (by turns every class a lost link shows as). With an
+                # error the stream reader hands out nothing more, not even the partial line it holds
+                if kind == "waveshare" or loss == "error" or (loss is None and split_at % 3 == 0):
+                    conn.reset(simgw.link_loss(kind))
                 else:
                     conn.feed_eof()
                 for _ in range(6000):
@@ -387,13 +390,15 @@ def run_shard(spec, acc):
                     mid = rng.randint(p_start + 1, p_end - 1)
                     pk2 = list(packets)
                     idx = next(i for i, e in enumerate(_boundaries(packets)) if e == p_end)
-                    if kind in ("yd", "actisense"):
+                    loss_ = "error" if (kind == "waveshare" or mid % 2) else "eof"
+                    if kind in ("yd", "actisense") and loss_ == "eof":
                         pk2[idx] = stream[p_start:mid]
                     else:
                         del pk2[idx]
                     want2, undel2 = expected_messages(kind, pk2, settings)
                     cuts = sorted(rng.sample(range(1, len(stream)), min(20, len(stream) - 1)))
-                    sim, stats = run_one(kind, stream, cuts, 1, settings, cb, split_at=mid, resume_at=p_end)
+                    sim, stats = run_one(kind, stream, cuts, 1, settings, cb, split_at=mid, resume_at=p_end, loss=loss_)
+                    acc.cover("mid_packet_link_loss_kinds", loss_)
                     if sim is not None and len(sim.conns) >= 2:
                         acc.count("sessions_link_lost_mid_packet")
                         judge(sim, stats, want2, acc, kind, "link_lost_mid_packet_then_reconnect", cuts, settings, cb, stream, undel2, True)
